@@ -292,9 +292,12 @@ theorem sumOf_intervals_if (n : Int) (ns : List Int) :
   have h3 : reals (Value.interval n :: ns.map Value.interval) = none := by simp [reals, asReal, collect]
   simp only [sumOf, List.map_cons, h1, h2, h3]
 
-/-- the property's proviso for REAL sums, for two parts: adding the partial sums gives the sum of the whole -/
+/-- the property's proviso for REAL sums, for two parts: the addition obeys `RealAddLaws` (`Lemmas/AggPerm.lean`: `0.0 + y = y`
+and commutativity on the addends, associativity on the partial sums at hand — an assumption about IEEE addition on these
+values) on the addends of both parts together. That the partial sums of the parts add up to the sum of the whole is
+DERIVED from it (`realSum_append_of_laws`). -/
 def RealSplitExact (xs ys : List Value) : Prop :=
-  ∀ rs1 rs2, reals xs = some rs1 → reals ys = some rs2 → realSum (rs1 ++ rs2) = F64.add (realSum rs1) (realSum rs2)
+  ∀ rs1 rs2, reals xs = some rs1 → reals ys = some rs2 → RealAddLaws (rs1 ++ rs2)
 
 /-- **sums add** (every numeric type): the sum over a concatenation is `mergeSum` of the sums over the parts -/
 theorem sumOf_append {xs ys : List Value} {a b r : Value}
@@ -331,13 +334,14 @@ theorem sumOf_append {xs ys : List Value} {a b r : Value}
           obtain ⟨rs1, rs2, hr1, hr2, hrs⟩ := reals_append_inv hr
           have e1 := reals_eq hr1
           have e2 := reals_eq hr2
-          have hx := hreal rs1 rs2 hr1 hr2
+          have hlaws := hreal rs1 rs2 hr1 hr2
           cases rs1 with
           | nil => simp at e1
           | cons p rs1' =>
             cases rs2 with
             | nil => simp at e2
             | cons p2 rs2' =>
+              have hx := realSum_append_of_laws hlaws (by simp)
               have e12 : (x :: xs') ++ (y :: ys') = (p :: (rs1' ++ (p2 :: rs2'))).map Value.real := by
                 rw [e1, e2, ← List.map_append]; rfl
               rw [e12, sumOf_reals_if] at h
@@ -458,7 +462,8 @@ theorem squaresOf_append_inv {a b sq : List Value} (h : squaresOf (a ++ b) = som
       exact ⟨_, _, part a r1 h1, part b r2 h2, by rw [← h]; simp [List.map_append]⟩
     | none => simp [hi, hr] at h
 
-/-- the provisos of the property for the sums of two parts: REAL partial sums (and sums of squares) add exactly -/
+/-- the provisos of the property for the sums of two parts: for REAL addends (and their squares) the laws of
+`RealSplitExact` -/
 structure SplitExact (x1 x2 : List Value) : Prop where
   sums : RealSplitExact x1 x2
   squares : ∀ s1 s2, squaresOf x1 = some s1 → squaresOf x2 = some s2 → RealSplitExact s1 s2
